@@ -11,6 +11,7 @@ NOTE = ("Trusted: go/ssa construction (x/tools v0.29.0), the engine's instructio
 
 # property -> (claimed?, level text, design ref)
 CLAIMED = {
+ "C15": ("MD5 is abstracted as an uninterpreted function with congruence (every digest value possible), the decimal timestamp rendering by digit variables; the argument the library hands to MD5 is compared with the specification's concatenation, and the encode -> decode -> peer recomputation exchange is solver-decided for all accounts, secrets (bounded length), timestamps and digests, for the CMPP 2.0/3.0 connect exchange and the SMGP 3.0 login.", "DESIGN.md 8 C15"),
  "C18": ("Receipts are assembled from ordered key selections (enumerated) with symbolic values; the real extraction functions are executed symbolically (substring search as first-match terms) and every present/absent key's result is solver-decided; the CMPP status-report body round-trips as in C01.", "DESIGN.md 8 C18"),
  "C04": ("One-step relation against the framing specification from an arbitrary reader state: stream octets, cursor, number of arrived octets, read chunk sizes and the end/fault offset are solver variables; the real Decode/DecodeBlocked and io.ReadFull are executed symbolically.", "DESIGN.md 8 C04"),
  "C16": ("Set round trip for 0..3 parameters with symbolic distinct tags and values under every serialisation order (map order explored as a nondeterministic choice), agreement of the two parsers on well-formed sequences, no-fabrication against a reference walk for every short octet string, and the 16-bit size boundary jobs are all solver-decided on the real TLV/Options code.", "DESIGN.md 8 C16"),
